@@ -1,4 +1,5 @@
 import JSL.Inv.SchedSmStep
+import JSL.Inv.Dur
 
 /-!
 # Admissible executions
@@ -82,5 +83,38 @@ theorem final_inv {cfg : SMConfig} {s0 s : State} (hst : Start orc inst s0) (h :
   obtain ⟨w, hI, hS⟩ := occursA_inv hst h
   have nn := nonnegB_sound hst.samples hst.nonneg
   exact ⟨(smStep_struct w hI hstep).1, (smStep_sched w nn hI hS ha hstep).2.2.1⟩
+
+
+/-- a further invariant (a `Pass`) holds along every admissible execution it is admissible for -/
+theorem occursA_pass {cfg : SMConfig} (ps : Pass orc inst cfg) {s0 σ : State} (hst : Start orc inst s0)
+    (h0 : ps.P s0) (hadm : ∀ s a, Admissible a → ps.Adm s a) (h : OccursA orc inst cfg s0 σ) : ps.P σ := by
+  obtain ⟨w, _⟩ := initOKB_sound hst.init
+  have nn := nonnegB_sound hst.samples hst.nonneg
+  induction h with
+  | init => exact h0
+  | result hprev ha hstep hnd ih =>
+    obtain ⟨_, hI, hS⟩ := occursA_inv hst hprev
+    exact (ps.smStep w nn hI hS ih ha (hadm _ _ ha) hstep).2.2.2 hnd
+  | sub hprev ha hstep hσ ih =>
+    obtain ⟨_, hI, hS⟩ := occursA_inv hst hprev
+    exact (ps.smStep w nn hI hS ih ha (hadm _ _ ha) hstep).2.1 _ hσ
+  | micro hprev ha hstep hσ ih =>
+    obtain ⟨_, hI, hS⟩ := occursA_inv hst hprev
+    exact (ps.smStep w nn hI hS ih ha (hadm _ _ ha) hstep).1 _ hσ
+
+/-- the duration invariant along every admissible execution -/
+theorem occursA_dur {cfg : SMConfig} {s0 σ : State} (hst : Start orc inst s0) (h : OccursA orc inst cfg s0 σ) :
+    DurInv inst σ := by
+  obtain ⟨w, _⟩ := initOKB_sound hst.init
+  have nn := nonnegB_sound hst.samples hst.nonneg
+  exact occursA_pass (DurPass orc inst cfg w nn) hst (DurInv.of_rest hst.rest) (fun _ _ ha => ha.shaped) h
+
+theorem final_dur {cfg : SMConfig} {s0 s : State} (hst : Start orc inst s0) (h : OccursA orc inst cfg s0 s)
+    {a : Action} (ha : Admissible a) {fuel : Nat} {r r' : Rng} {res : SMResult} {mic : List State}
+    (hstep : smStep orc inst cfg fuel s r a = .ok (res, r', mic)) : DurInv inst res.state := by
+  obtain ⟨w, hI, hS⟩ := occursA_inv hst h
+  have nn := nonnegB_sound hst.samples hst.nonneg
+  obtain ⟨t, ht⟩ := ((DurPass orc inst cfg w nn).smStep w nn hI hS (occursA_dur hst h) ha ha.shaped hstep).2.2.1
+  exact DurInv.of_time ht
 
 end JSL
